@@ -891,7 +891,8 @@ def finish(rep, info, stats, samples, counts):
         "tested_clauses": ["ratio-1 error <= 1e-12 * peak with glibc sin/cos and rounded PI", "linearity within rounding (f64 1e-12*scale, f32 (8 taps+4) ulp24*scale, i16 (1+|a|+|b|) LSB per tap)",
                            "finite output for finite input (|s| <= 1e300)", "constant input within 1 % once the buffer is full, depth >= 4 (integers: + 1 LSB per tap truncation)",
                            "all fourteen sample formats (i8 i16 I24 i32 I48 i64 u8 u16 U24 u32 U48 u64 f32 f64), mono and stereo: ratio 1 reproduces the source delayed by depth BIT-EXACTLY for integer formats <= 48 bits including the rails MIN and MAX (64-bit integers and floats: 1e-12 of the peak amplitude; 64-bit rails fall in K5)",
-                           "float streams with tiny (f32 peak 2^-130..2^-120, f64 subnormal) and huge (1e38 / 1e300) peaks at ratio 1 relative to their peak; scaling H = k F with k in {2^-126, 2^-100, 2^100} commutes with interpolation within rounding"],
+                           "float streams with tiny (f32 peak 2^-130..2^-120, f64 subnormal) and huge (1e38 / 1e300) peaks at ratio 1 relative to their peak; scaling H = k F with k in {2^-126, 2^-100, 2^100} commutes with interpolation within rounding",
+                           "Converter operations between outputs (set_hz_to_hz, set_playback_hz_scale, set_sample_hz_scale, source, source_mut().next(), is_exhausted, into_source + each of the three constructors, the accumulator hook) at every phase of the accumulator (0, fractional, exactly 1.0 pending, above 1; input_distribution.converter_ops_by_accumulator_phase), re-announcing the ratio in force as often as changing it: compared bit for bit with the model whose setters change only the ratio; the ratio-1 delay streams are run a second time with the same rates announced again mid-stream (priming, primed, after the ring wrapped) and must still be the source delayed by exactly depth"],
         "evaluations": counts.get("n", 0), "distinct_nontrivial": counts.get("nontriv", 0),
         "rule": "non-trivial = depth >= 2 and an interpolation at a fractional position (x != 0) while 0 < idx < depth (priming phase) or after a reset; distinct harness lines counted",
         "samples": samples, "input_distribution": stats, "disagreements": counts.get("bad", 0),
